@@ -57,10 +57,59 @@ def _mk(d):
         return X.Set([_mk(x) for x in d["items"]])
     if k == "type":
         return S.UnsignedIntegerType(d["n"], S.PrimitiveType.CastMode.SATURATED)
+    if k == "btype":
+        return S.BooleanType()
     raise ValueError(k)
 
 
 _CLASS_KIND = {"Boolean": "bool", "Rational": "rat", "String": "str", "Set": "set", "Any": None}
+
+# ---- exotic operands: enumerated FIRST (index-driven, before any random input), so that the quick budget and the runner's
+# escalation on functions with an engine limit reach them.  Sets of sets, sets of types, singletons of every element class,
+# mixed-sign / non-integer rationals, strings that need NFC normalisation.
+_r = lambda n, d=1: {"k": "rat", "n": n, "d": d}
+_s = lambda *items: {"k": "set", "items": list(items)}
+_U8, _U16, _BT = {"k": "type", "n": 8}, {"k": "type", "n": 16}, {"k": "btype"}
+_NFC, _NFD = {"k": "str", "v": "\u00e9"}, {"k": "str", "v": "e\u0301"}
+EXOTIC_SETS = [
+    _s(_s(_r(1)), _s(_r(2))),                 # {{1}, {2}}
+    _s(_U8, _U16),                            # {uint8, uint16}
+    _s(_BT),                                  # {bool}
+    _s(_s(_r(1))),                            # {{1}}
+    _s(_s(_U8)),                              # {{uint8}}
+    _s({"k": "bool", "v": True}),             # singletons of every element class
+    _s(_r(-1, 2)),
+    _s({"k": "str", "v": "a"}),
+    _s(_U8),
+    _s(_r(-3), _r(5, 2), _r(0)),              # mixed sign, non-integer
+    _s(_r(-1, 2), _r(3, 2)),
+    _s(_NFC, _NFD),                           # two spellings of one text
+    _s({"k": "bool", "v": True}, {"k": "bool", "v": False}),
+]
+EXOTIC_SCALARS = [_r(-1, 2), _r(5, 2), _r(-3), _r(0), _NFC, _NFD, {"k": "bool", "v": True}, _U8, _BT]
+EXOTIC_ALL = EXOTIC_SETS + EXOTIC_SCALARS
+
+
+def _exotic_pair(i, selves):
+    """i-th pair (self, other) of selves x EXOTIC_ALL, ordered so that the first len(selves) pairs pair every self with
+    itself, the next ones with each other operand in turn; None when exhausted."""
+    n, m = len(selves), len(EXOTIC_ALL)
+    if i < n:
+        return selves[i], selves[i]
+    i -= n
+    if i >= n * m:
+        return None
+    return selves[i % n], EXOTIC_ALL[(i // n + i % n) % m]
+
+
+_EXOTIC_BY_KIND = {
+    "set": EXOTIC_SETS,
+    "rat": [_r(-1, 2), _r(5, 2), _r(-3), _r(0)],
+    "str": [_NFC, _NFD],
+    "bool": [{"k": "bool", "v": True}, {"k": "bool", "v": False}],
+    None: EXOTIC_ALL,
+}
+ONLY_INVALID_DEFINITION = "InvalidDefinitionError"  # what may leave an operator for *any* operands (C13)
 
 
 def _method_case(qualname):
@@ -70,6 +119,9 @@ def _method_case(qualname):
     kind = _CLASS_KIND[clsname]
 
     def gen(rng, i):
+        ex = _exotic_pair(i, _EXOTIC_BY_KIND[kind])
+        if ex is not None:
+            return {"self": ex[0], "other": _small_exponent(rng, ex[1]) if "power" in meth else ex[1]}
         if kind is None:
             me = _gen_any(rng)
         elif kind == "set":
@@ -120,13 +172,17 @@ _small_base = _small_exponent
 
 def add_method(qualname):
     gen, build = _method_case(qualname)
-    NATIVE.add(qualname, gen, build)
+    total = None if qualname.endswith("as_native_integer") else ONLY_INVALID_DEFINITION
+    NATIVE.add(qualname, gen, build, outside_pre_only_raises=total)
 
 
 def add_wrapper(qualname):
     name = qualname.split(".")[-1]
 
     def gen(rng, i):
+        ex = _exotic_pair(i, EXOTIC_ALL)
+        if ex is not None:
+            return {"left": ex[0], "right": _small_exponent(rng, ex[1]) if name == "power" else ex[1]}
         l = _gen_any(rng)
         like = dict(l)
         if l["k"] == "set":
@@ -150,7 +206,7 @@ def add_wrapper(qualname):
         l, r = _mk(desc["left"]), _mk(desc["right"])
         return (lambda: fn(l, r)), {"left": l, "right": r}
 
-    NATIVE.add(qualname, gen, build)
+    NATIVE.add(qualname, gen, build, outside_pre_only_raises=ONLY_INVALID_DEFINITION)
 
 
 # ---- constructors
@@ -302,7 +358,12 @@ def _unary_form(name):
     NATIVE.add(E.PTP + name, gen, build)
 
 
+_ATTR_NAMES = ["min", "max", "count", "foo"]
+
+
 def _gen_set_attribute(rng, i):
+    if i < len(EXOTIC_SETS) * len(_ATTR_NAMES):
+        return {"self": EXOTIC_SETS[i % len(EXOTIC_SETS)], "name": _ATTR_NAMES[i // len(EXOTIC_SETS)]}
     return {"self": _gen_set(rng), "name": rng.choice(["min", "max", "count", "count", "foo", ""])}
 
 
@@ -325,7 +386,7 @@ def install(reg):
         elif q.endswith("Set.__init__"):
             NATIVE.add(q, _gen_set_init, _build_set_init)
         elif q.endswith("Set._attribute"):
-            NATIVE.add(q, _gen_set_attribute, _build_set_attribute)
+            NATIVE.add(q, _gen_set_attribute, _build_set_attribute, outside_pre_only_raises=ONLY_INVALID_DEFINITION)
         elif q.endswith("._attribute"):
             continue
         elif q.startswith(E.EX) and q.split(".")[-2] in _CLASS_KIND:
